@@ -267,8 +267,10 @@ def _closed_shell_pair(case, rng, dt, nw, n_batch=1):
         anti = rng.normal(size=(norb, norb)) * 0.2
         h1 = np.array([h1[0] + anti - anti.T, h1[1] + anti - anti.T])
     mo = np.linalg.qr(rng.normal(size=(norb, nocc)))[0]
-    if case.get("complex") or case["s"] % 4 == 3:
-        # complex trial orbitals (the rhf and uhf routines conjugate them everywhere): still the same closed-shell problem in both formats
+    if case["level"] == "sampler" and (case.get("complex") or case["s"] % 4 == 3):
+        # complex trial orbitals (the rhf and uhf measurement routines conjugate them everywhere): still the same closed-shell problem in
+        # both formats.  Plain sampler only: the differentiable SCF behind the AD entry points is defined for real orbitals (JAX itself
+        # rejects the complex tangent of its real eigenvalues with a TypeError - an explicit refusal, not a silent difference)
         mo = np.linalg.qr(rng.normal(size=(norb, nocc)) + 1j * rng.normal(size=(norb, nocc)))[0]
     ene0 = float(rng.choice([0.0, -3.0, 2.5]))   # the free-projection reference energy must be irrelevant for phaseless runs of either format
     out = {}
